@@ -55,6 +55,9 @@ def _c01() -> List[Obl]:
             add("flush", "c01_flush", fns=["flush", f"flush_{el}"])
             add("into_inner", "c01_into_inner", fns=["into_inner", f"flush_{el}"])
             add("drop", "c01_drop", fns=["drop", f"flush_{el}"])
+    for fn in ("lemma_history", "lemma_prefix", "lemma_flush_idempotent"):
+        out.append(Obl(id=f"c01.{fn}", prop="C01", engine="verus", target=f"history:{fn}", fns=[],
+                       note="pure lemma: the per-operation contracts compose over every history and every prefix of it"))
     return out
 
 
@@ -87,10 +90,11 @@ def _reader(prop: str, only: str, which) -> List[Obl]:
                 tier = "quick" if (w in QUICK_R and not name.endswith(".K4")) else "thorough"
                 out.append(Obl(id=f"{pl}.{name}.{E}.{w}", prop=prop, engine="kani", target=base + h, tier=tier,
                                kind=kind, bound=bound, fns=[f"{R}::{f}" for f in fns], only=only,
-                               confirm=base + "c02_confirm"))
+                               confirm=f"obl_reader::{el}::u8_::c02_confirm_" + name.split(".")[0] if name.split(".")[0] in
+                               ("read_bits", "peek_bits", "skip_bits_after_peek", "read_unary", "skip_bits", "set_bit_pos") else ""))
             if "confirm" in which:
                 out.append(Obl(id=f"{pl}.two_step.{E}.{w}", prop=prop, engine="kani", target=base + "c02_confirm", tier="thorough",
-                               kind="bounded", bound="one symbolic operation followed by an optional peek and a read (2-3 step histories)",
+                               kind="bounded", bound="one symbolic operation followed by two rounds of (optional peek, read) (3-5 step histories)",
                                fns=[f"{R}::*"], only=only))
     bops = {
         "new": ("c02_new", "complete", "", ["new"]),
@@ -124,8 +128,18 @@ def _c02() -> List[Obl]:
 
 
 def _c07() -> List[Obl]:
-    return _reader("C07", r"c07|advance|positioned|move|confirm: position", ["read_bits", "peek_bits", "skip_bits_after_peek", "read_unary.K2",
+    out = _reader("C07", r"c07|advance|positioned|move|confirm: position", ["read_bits", "peek_bits", "skip_bits_after_peek", "read_unary.K2",
                                                           "skip_bits", "skip_bits.K2", "bit_pos", "set_bit_pos", "confirm"])
+    # the seek contracts of the backends the readers are used with
+    for w in ["u8", "u64"]:
+        for h in ("reader_inf_k3", "reader_strict_k3", "writer_slice_k3"):
+            out.append(Obl(id=f"c07.backend.{h}.{w}", prop="C07", engine="kani", target=f"obl_c13::{w}_::{h}", kind="bounded",
+                           bound="array length <= 3", fns=["MemWord*::{word_pos,set_word_pos,read_word}"]))
+        out.append(Obl(id=f"c07.backend.adapter_positions.{w}", prop="C07", engine="kani", target=f"obl_c11::{w}_::c11_positions", kind="bounded",
+                       bound="Cursor over at most 2 words plus a partial tail", fns=["WordAdapter::{word_pos,set_word_pos}"]))
+    out.append(Obl(id="c07.backend.writer_vec.u8", prop="C07", engine="kani", target="obl_c13::u8_::writer_vec_len2_borrowed", kind="bounded",
+                   bound="vector of length 2", fns=["MemWordWriterVec::{word_pos,set_word_pos,read_word}"]))
+    return out
 
 
 def _c09_impl() -> List[Obl]:
@@ -180,8 +194,21 @@ def _c11() -> List[Obl]:
     return out
 
 
+MONO_H = ["mono_unary", "mono_gamma", "mono_gamma_t", "mono_delta", "mono_delta_ft", "mono_delta_tt", "mono_omega", "mono_zeta", "mono_zeta_t", "mono_pi",
+          "mono_rice", "mono_exp_golomb", "mono_vbyte"]
+
+
 def _c20() -> List[Obl]:
-    out = [Obl(id="c20.fcp.new", prop="C20", engine="verus", target="find_change:new", fns=["FindChangePoints::new"]),
+    out = []
+    # the length functions do not depend on the endianness: the BE instantiation only
+    for h in MONO_H:
+        out.append(Obl(id=f"c20.{h}", prop="C20", engine="kani", target=f"obl_codes::hbe::{h}", fns=["codes::len_* (" + h[5:] + ")"],
+                       note="two-value obligation a <= b => len(a) <= len(b); parameter symbolic"))
+    for b in GOLOMB_B:
+        out.append(Obl(id=f"c20.mono_golomb.{b}", prop="C20", engine="kani", target=f"obl_codes::golomb_be::{b}::mono",
+                       tier="quick" if b in GOLOMB_QUICK else "thorough", kind="bounded", bound="constant modulus (grid point " + b + "); every pair of values",
+                       fns=["codes::golomb::len_golomb"]))
+    out += [Obl(id="c20.fcp.new", prop="C20", engine="verus", target="find_change:new", fns=["FindChangePoints::new"]),
            Obl(id="c20.fcp.next", prop="C20", engine="verus", target="find_change:next", fns=["FindChangePoints::next"]),
            Obl(id="c20.fcp.lemma_flat", prop="C20", engine="verus", target="find_change:lemma_flat", fns=[])]
     return out
@@ -265,12 +292,40 @@ def _golomb(prop: str, only: str, which) -> List[Obl]:
     return out
 
 
+def _verus_golomb(prop: str, which, feats=("",)) -> List[Obl]:
+    """Verus obligations on the extracted real text of minimal_binary.rs / golomb.rs (every modulus, every value)."""
+    out = []
+    pl = prop.lower()
+    for feat in feats:
+        sfx = ".checks" if feat else ""
+        for fn, src in which:
+            out.append(Obl(id=f"{pl}.verus.{fn}{sfx}", prop=prop, engine="verus", target=f"golomb:{fn}", features=feat,
+                           fns=[src] if src else [], note="unbounded modulus / upper bound in 1..2^64 and unbounded quotient (Seq<bool> stream contract)"))
+    return out
+
+
+def _stdspec(prop: str, which) -> List[Obl]:
+    return [Obl(id=f"{prop.lower()}.std_spec.{w}", prop=prop, engine="kani", target=f"obl_stdspec::std_spec_{w}", fns=[],
+                note="discharges an assume_specification / std rewrite used by the Verus units") for w in which]
+
+
+V_MB_W = ("write_minimal_binary", "codes::minimal_binary::MinimalBinaryWrite::write_minimal_binary")
+V_MB_R = ("read_minimal_binary", "codes::minimal_binary::MinimalBinaryRead::read_minimal_binary")
+V_MB_L = ("len_minimal_binary", "codes::minimal_binary::len_minimal_binary")
+V_G_W = ("write_golomb", "codes::golomb::GolombWrite::write_golomb")
+V_G_R = ("read_golomb", "codes::golomb::GolombRead::read_golomb")
+V_G_L = ("len_golomb", "codes::golomb::len_golomb")
+V_LEMMAS = [(l, "") for l in ("lemma_limit", "lemma_bits_determine", "lemma_field_injective", "lemma_read_short", "lemma_read_long",
+                               "lemma_unary_unique", "lemma_golomb_split", "lemma_golomb_q", "lemma_golomb_r", "lemma_golomb_no_overflow",
+                               "lemma_mb_len_bound", "lemma_log2f_exists", "lemma_log2_search", "lemma_log2f", "lemma_log2_unique", "lemma_mb_bits_len")]
+
+
 def _c03() -> List[Obl]:
-    return (_codes("C03", r"c03|contract", [(RT_BASE, None), (RT_K, RT_K_QUICK)]) + _golomb("C03", r"c03|contract", ["rt", "mb_rt"]))
+    return (_verus_golomb("C03", [V_MB_W, V_MB_R, V_G_W, V_G_R] + V_LEMMAS) + _stdspec("C03", ["ilog2"]) +_codes("C03", r"c03|contract", [(RT_BASE, None), (RT_K, RT_K_QUICK)]) + _golomb("C03", r"c03|contract", ["rt", "mb_rt"]))
 
 
 def _c04() -> List[Obl]:
-    return (_codes("C04", r"c04|contract", [(DEF_H, None)]) + _golomb("C04", r"c04|contract", ["def", "mb_def"]))
+    return (_verus_golomb("C04", [V_MB_W, V_G_W, ("lemma_limit", "")]) + _stdspec("C04", ["ilog2"]) +_codes("C04", r"c04|contract", [(DEF_H, None)]) + _golomb("C04", r"c04|contract", ["def", "mb_def"]))
 
 
 def _c05() -> List[Obl]:
@@ -284,7 +339,7 @@ def _c05() -> List[Obl]:
 
 
 def _c06() -> List[Obl]:
-    return (_codes("C06", r"c06", [(LEN_H, None), (DEF_H, None)]) + _golomb("C06", r"c06", ["len", "def"])
+    return (_verus_golomb("C06", [V_MB_L, V_G_L, V_MB_W, V_G_W, V_MB_R, V_G_R, ("lemma_limit", ""), ("lemma_golomb_no_overflow", "")]) + _stdspec("C06", ["ilog2"]) +_codes("C06", r"c06", [(LEN_H, None), (DEF_H, None)]) + _golomb("C06", r"c06", ["len", "def"])
             + _codes("C06", r"bits consumed", [(["rt_gamma", "rt_delta", "rt_omega", "rt_zeta3", "rt_vbyte_be", "rt_zeta_k2", "rt_pi_k2", "rt_exp_golomb_k1"], None)]))
 
 
@@ -293,7 +348,7 @@ def _c09_codes() -> List[Obl]:
 
 
 def _c08() -> List[Obl]:
-    out = []
+    out = _stdspec("C08", ["min_u64"])
     for u, fn in (("copy_to_generic", "copy_to"), ("copy_from_generic", "copy_from")):
         for feats in ("", "checks"):
             sfx = ".checks" if feats else ""
@@ -304,9 +359,231 @@ def _c08() -> List[Obl]:
     return out
 
 
+C14_W = ['write_bits', 'write_unary', 'write_gamma', 'write_delta', 'write_zeta', 'write_zeta3', 'write_omega', 'write_pi', 'write_rice', 'write_exp_golomb', 'write_vbyte_be', 'write_gamma_table', 'write_delta_table', 'write_minimal_binary', 'copy_from']
+C14_R = ['read_bits', 'read_unary', 'read_gamma', 'read_delta', 'read_zeta', 'read_zeta3', 'read_omega', 'read_pi', 'read_rice', 'read_exp_golomb', 'read_vbyte_le', 'read_gamma_table', 'read_delta_table', 'read_zeta3_table', 'read_minimal_binary', 'skip_bits', 'peek_skip_after_peek', 'copy_to']
+C14_QUICK = {"write_bits", "write_unary", "write_gamma", "write_zeta", "write_omega", "write_delta_table", "copy_from",
+             "read_bits", "read_unary", "read_gamma", "read_zeta", "read_zeta3", "read_omega", "read_gamma_table", "skip_bits", "peek_skip_after_peek", "copy_to"}
+
+
+def _c14() -> List[Obl]:
+    out = []
+    for hm, E in (("hbe", "BE"), ("hle", "LE")):
+        out.append(Obl(id=f"c14.count_writer.flush.{E}", prop="C14", engine="kani", target=f"obl_c14::{hm}::count_writer_flush", fns=["CountBitWriter::flush"]))
+        for wrap, names, cls in (("count_writer", C14_W, "CountBitWriter"), ("dbg_writer", C14_W, "DbgBitWriter"),
+                                 ("count_reader", C14_R, "CountBitReader"), ("dbg_reader", C14_R, "DbgBitReader")):
+            for nm in names:
+                quick = nm in C14_QUICK and (wrap.startswith("count") or nm in ("write_bits", "write_gamma", "read_bits", "read_zeta", "read_omega"))
+                bounded = nm in ("write_unary", "read_unary", "write_rice", "read_rice", "copy_from", "copy_to", "skip_bits")
+                out.append(Obl(id=f"c14.{wrap}.{nm}.{E}", prop="C14", engine="kani", target=f"obl_c14::{hm}::{wrap}_{nm}",
+                               tier="quick" if quick else "thorough", kind="bounded" if bounded else "complete",
+                               bound="operand bounded by the 256-bit abstract stream (unary/Rice quotient, copy/skip length <= 100)" if bounded else "",
+                               fns=[f"{cls}::{nm.replace('_table', '').replace('peek_skip_after_peek', 'peek_bits + skip_bits_after_peek')} (and every code reaching the stream through the wrapper's primitives)"]))
+    return out
+
+
+C10_IDS = ['unary', 'gamma', 'delta', 'omega', 'vbyte_be', 'vbyte_le', 'zeta2', 'zeta3', 'zeta4', 'zeta5', 'zeta6', 'zeta7', 'zeta8', 'zeta9', 'zeta10', 'rice1', 'rice2', 'rice3', 'rice4', 'rice5', 'rice6', 'rice7', 'rice8', 'rice9', 'rice10', 'pi1', 'pi2', 'pi3', 'pi4', 'pi5', 'pi6', 'pi7', 'pi8', 'pi9', 'pi10', 'golomb3', 'golomb5', 'golomb6', 'golomb7', 'golomb9', 'golomb10', 'exp_golomb1', 'exp_golomb2', 'exp_golomb3', 'exp_golomb4', 'exp_golomb5', 'exp_golomb6', 'exp_golomb7', 'exp_golomb8', 'exp_golomb9', 'exp_golomb10']
+
+
+def _c10() -> List[Obl]:
+    out = []
+    reps = ["gamma", "delta", "omega", "zeta3", "zeta5", "rice4", "pi1", "pi2", "golomb3", "exp_golomb2", "vbyte_be", "vbyte_le"]
+    mechs = (("codes_enum", "Codes::{read,write,len}"), ("const", "ConstCode<ID>::{read,write,len}"),
+             ("func", "FuncCodeReader/FuncCodeWriter/FuncCodeLen::new + call"), ("factory", "FactoryFuncCodeReader::{new,get}"),
+             ("stats", "CodesStatsWrapper::{read,write}"))
+    for E in ("be", "le"):
+        for mech, what in (("codes", "Codes::{read,write,len}"), ("const", "ConstCode<ID>::{read,write,len}"),
+                           ("func", "FuncCodeReader/FuncCodeWriter/FuncCodeLen::new + call"), ("factory", "FactoryFuncCodeReader::{new,get}"),
+                           ("stats", "CodesStatsWrapper::{read,write} (pass-through + exactly update(value))")):
+            out.append(Obl(id=f"c10.grid.{mech}.{E.upper()}", prop="C10", engine="native", target=f"c10_grid:c10_grid_{mech}_{E}", kind="bounded",
+                           bound="concrete execution: all 51 identifiers x 11 values (0,1,2,5,7,77,1000,65535,2^20-1,2^32+5,2^40+7), 5 preceding bits",
+                           fns=[what + " for every identifier"]))
+    for hm, E in (("hbe", "BE"), ("hle", "LE")):
+        for r in reps:
+            for mech in ("codes_enum", "const", "func"):
+                quick = E == "BE" and ((mech == "const" and r in ("pi1", "zeta3")) or (mech == "func" and r in ("rice4",)) or (mech == "codes_enum" and r in ("gamma",)))
+                kind = "bounded" if r in ("rice4", "golomb3") else "complete"
+                out.append(Obl(id=f"c10.all_values.{mech}.{r}.{E}", prop="C10", engine="kani", target=f"obl_c10::{hm}::sym_{mech}_{r}",
+                               tier="quick" if quick else "thorough", kind=kind,
+                               bound="codeword must fit the 256-bit model" if kind == "bounded" else "", fns=[f"dispatch of {r} through {mech}: read, write, len for every value"]))
+    for t in ("len", "writer", "reader"):
+        out.append(Obl(id=f"c10.unsupported.{t}", prop="C10", engine="native", target=f"c10_unsupported:c10_unsupported_{t}", kind="bounded",
+                       bound="concrete execution: 32 unsupported codes", fns=[f"FuncCode{t.capitalize() if t != 'len' else 'Len'}::new (rejection)"]))
+    return out
+
+
+def _c12() -> List[Obl]:
+    out = []
+    LS = (0, 1, 7, 8, 9, 17)
+    QL = (7, 9)
+    for el, E in ENDIANS:
+        for w in WWORDS:
+            for L in LS:
+                tier = "quick" if (w in ("u8", "u64") and L in QL) else "thorough"
+                out.append(Obl(id=f"c12.write.{E}.{w}.L{L}", prop="C12", engine="kani", target=f"obl_c12::wr_{el}::{w}_::c12_write_l{L}", tier=tier,
+                               kind="bounded", bound=f"slice length = {L} bytes (writer state, contents, bit offset symbolic)",
+                               fns=[f"<BufBitWriter<{E},_<{w}>> as std::io::Write>::write"]))
+        for w in RWORDS:
+            for L in LS:
+                tier = "quick" if (w in ("u8", "u64") and L in QL) else "thorough"
+                out.append(Obl(id=f"c12.read.{E}.{w}.L{L}", prop="C12", engine="kani", target=f"obl_c12::rd_{el}::{w}_::c12_read_l{L}", tier=tier,
+                               kind="bounded", bound=f"slice length = {L} bytes (reader state, stream, bit offset symbolic)",
+                               fns=[f"<BufBitReader<{E},_<{w}>> as std::io::Read>::read"]))
+        for L in LS:
+            out.append(Obl(id=f"c12.read.{E}.unbuffered.L{L}", prop="C12", engine="kani", target=f"obl_c12::rd_{el}::c12_read_unbuffered_l{L}",
+                           tier="quick" if L in QL else "thorough", kind="bounded", bound=f"slice length = {L} bytes",
+                           fns=[f"<BitReader<{E},_> as std::io::Read>::read"]))
+    return out
+
+
+def _c15() -> List[Obl]:
+    out = []
+    for sz, tier, txt in (("small", "quick", "CodesStats<3,4,3,3,3>"), ("dflt", "thorough", "CodesStats<10,20,10,10,10> (default)")):
+        for h, fns in (("update", ["CodesStats::update", "CodesStats::update_many"]), ("merge", ["CodesStats::add", "AddAssign", "Add", "Sum"]),
+                       ("best", ["CodesStats::best_code"]), ("default", ["CodesStats::default"])):
+            out.append(Obl(id=f"c15.{h}.{sz}", prop="C15", engine="kani", target=f"obl_c15::{sz}_{h}", tier=tier, fns=[f"{f} on {txt}" for f in fns],
+                           note="value < 2^40, multiplicity 1, previous totals < 2^40 (the property's no-overflow restriction)" if h == "update" else ""))
+        for g in ("0", "77", "big"):
+            out.append(Obl(id=f"c15.update_many.{g}.{sz}", prop="C15", engine="kani", target=f"obl_c15::{sz}_update_many_{g}", tier=tier, kind="bounded",
+                           bound="value fixed to a grid point (0, 77, 2^33+12345); multiplicity symbolic < 2^20", fns=[f"CodesStats::update_many on {txt}"]))
+    for hm, E in (("hbe", "BE"), ("hle", "LE")):
+        out.append(Obl(id=f"c15.wrapper.{E}", prop="C15", engine="native", target=f"c10_grid:c10_grid_stats_{E.lower()}", kind="bounded",
+                       bound="concrete execution: 51 identifiers x 11 values", fns=["CodesStatsWrapper::{read,write}: pass-through and exactly one update(value) per successful operation"]))
+    return out
+
+
+def _c16() -> List[Obl]:
+    out = [Obl(id="c16.ids", prop="C16", engine="kani", target="obl_c16::c16_ids", fns=["Codes::from_code_const", "Codes::to_code_const"]),
+           Obl(id="c16.code_to_id_and_back", prop="C16", engine="kani", target="obl_c16::c16_back", fns=["Codes::to_code_const", "Codes::from_code_const"]),
+           Obl(id="c16.eq_same_class", prop="C16", engine="kani", target="obl_c16::c16_eq", fns=["<Codes as PartialEq>::eq"])]
+    for cl in ("unary", "gamma", "rice1", "rice2", "rice3"):
+        for el in ("be", "le"):
+            kind = "bounded" if cl in ("unary", "rice1", "rice2", "rice3") else "complete"
+            out.append(Obl(id=f"c16.class.{cl}.{el.upper()}", prop="C16", engine="kani", target=f"obl_c16::class_{cl}_{el}", kind=kind,
+                           bound="codeword must fit the 256-bit model (every value otherwise)" if kind == "bounded" else "",
+                           fns=["Codes::write / Codes::len for the members of a class of equal codes"]))
+    for t in ("parameterless", "zeta", "pi", "golomb", "exp_golomb", "rice"):
+        out.append(Obl(id=f"c16.str.{t}", prop="C16", engine="native", target=f"c16_strings:c16_str_{t}", kind="bounded",
+                       bound="concrete execution: parameter grid {0,1,2,3,7,10,11,63,64,2^32,usize::MAX}", fns=["<Codes as Display>::fmt", "<Codes as FromStr>::from_str"]))
+    for t, b in (("reject_malformed", "19 malformed strings"), ("ids_out_of_range_rejected", "identifiers 0..=50 accepted, 6 out-of-range ones rejected"),
+                 ("codes_without_identifier_rejected", "8 codes without identifier")):
+        out.append(Obl(id=f"c16.{t}", prop="C16", engine="native", target=f"c16_strings:c16_{t}", kind="bounded",
+                       bound="concrete execution: " + b, fns=["<Codes as FromStr>::from_str" if "malformed" in t else "Codes::{from_code_const,to_code_const}"]))
+    return out
+
+
+def _c18() -> List[Obl]:
+    out = []
+    for h, fns in (("write_read_be", ["vbyte_write_be", "vbyte_read_be"]), ("write_read_le", ["vbyte_write_le", "vbyte_read_le"]),
+                   ("write_read_generic_be", ["vbyte_write::<BE>", "vbyte_read::<BE>"]), ("write_read_generic_le", ["vbyte_write::<LE>", "vbyte_read::<LE>"]),
+                   ("complete_be", ["vbyte_read_be", "vbyte_write_be"]), ("complete_le", ["vbyte_read_le", "vbyte_write_le"])):
+        out.append(Obl(id=f"c18.{h}", prop="C18", engine="kani", target=f"obl_c18::{h}", fns=["codes::vbyte::" + f for f in fns]))
+    # the bit-stream codes against the same definition (C04) and the length function (C06)
+    for hm, E in (("hbe", "BE"), ("hle", "LE")):
+        for h in ("def_vbyte_be", "def_vbyte_le", "rt_vbyte_be", "rt_vbyte_le", "len_vbyte"):
+            out.append(Obl(id=f"c18.bitstream.{h}.{E}", prop="C18", engine="kani", target=f"obl_codes::{hm}::{h}",
+                           fns=CODE_FNS["vbyte"], only=r"c04|c06|c03|contract"))
+    return out
+
+
+def _c03_params() -> List[Obl]:
+    out = []
+    for h in ("reader_be_u16", "reader_le_u16", "reader_be_u32", "reader_le_u32", "writer_be_u8", "writer_le_u64"):
+        for m in ("gamma", "delta", "zeta3", "zeta"):
+            out.append(Obl(id=f"c03.params.{h}.{m}", prop="C03", engine="kani", target=f"obl_params::c03_params_{h}_{m}",
+                           tier="quick" if (h in ("reader_be_u16", "writer_be_u8") and m in ("gamma", "zeta3")) else "thorough",
+                           kind="bounded" if "writer" in h else "complete",
+                           bound="backend window of 20 words; writer state and value symbolic (zeta: k = 2)" if "writer" in h else "",
+                           note="" if "writer" in h else "end to end: real BufBitWriter default method -> words -> real BufBitReader default method, every value, 0..=9 symbolic preceding bits, 20 symbolic following bits",
+                           fns=["codes::params: GammaRead/DeltaRead/ZetaRead for BufBitReader" if "reader" in h else "codes::params: GammaWrite/DeltaWrite/ZetaWrite for BufBitWriter"]))
+    return out
+
+
+def _c05_peek() -> List[Obl]:
+    out = []
+    for el, E in ENDIANS:
+        for w in RWORDS:
+            out.append(Obl(id=f"c05.peek_width.{E}.{w}", prop="C05", engine="kani", target=f"obl_params::c05_peek_width_{el}_{w}",
+                           fns=[f"BufBitReader<{E},_<{w}>>::new (look-ahead announced to check_tables)"]))
+            out.append(Obl(id=f"c05.peek_contract.{E}.{w}", prop="C05", engine="kani", target=f"obl_reader::{el}::{w}_::c02_peek_bits", only=r"c02.peek|c09.peek",
+                           tier="quick" if w in QUICK_R else "thorough", fns=[f"BufBitReader<{E},_<{w}>>::peek_bits (guaranteed width W::BITS)"]))
+        out.append(Obl(id=f"c05.peek_width.{E}.unbuffered", prop="C05", engine="kani", target=f"obl_params::c05_peek_width_unbuffered_{el}",
+                       fns=[f"BitReader<{E},_>::new"]))
+    for h in ("reader_be_u16", "reader_le_u16"):
+        for m in ("gamma", "delta", "zeta3"):
+            out.append(Obl(id=f"c05.params.{h}.{m}", prop="C05", engine="kani", target=f"obl_params::c03_params_{h}_{m}", kind="complete",
+                           tier="quick" if m == "zeta3" else "thorough",
+                           bound="", fns=["codes::params default read methods (end to end with the real writer)"]))
+    return out
+
+
+def _c19() -> List[Obl]:
+    out = []
+    for el, E in ENDIANS:
+        for w in WWORDS:
+            tier = "quick" if w in QUICK_W else "thorough"
+            W = f"BufBitWriter<{E},_<{w}>>"
+            out.append(Obl(id=f"c19.checks.panic.{E}.{w}", prop="C19", engine="kani", target=f"obl_c01::{el}::{w}_::c19_write_bits_dirty_panics", tier=tier,
+                           features="checks", fns=[f"{W}::write_bits (argument check)"],
+                           note="should_panic harness: every value with a bit at or above n panics; reaching the end of the call is a non-panic failure"))
+            out.append(Obl(id=f"c19.checks.clean.{E}.{w}", prop="C19", engine="kani", target=f"obl_c01::{el}::{w}_::c01_write_bits", tier=tier,
+                           features="checks", fns=[f"{W}::write_bits"], note="clean arguments: no panic and the same postcondition as without the option"))
+    # in-domain code writes never trip the check (the model asserts the `checks` precondition on every write_bits it receives)
+    for hm, E in (("hbe", "BE"), ("hle", "LE")):
+        for h in ("def_gamma", "def_gamma_t", "def_delta", "def_delta_tt", "def_omega", "def_zeta", "def_zeta3_t", "def_pi", "def_rice", "def_exp_golomb", "def_vbyte_be", "def_vbyte_le"):
+            kind, bound = _kind_for(h)
+            out.append(Obl(id=f"c19.checks.codes.{h}.{E}", prop="C19", engine="kani", target=f"obl_codes::{hm}::{h}", features="checks",
+                           tier="quick" if h in ("def_gamma", "def_delta", "def_omega", "def_pi", "def_rice", "def_exp_golomb") else "thorough",
+                           kind=kind, bound=bound, fns=_fns_for(h)))
+    for b in ("b3", "b7"):
+        out.append(Obl(id=f"c19.checks.codes.golomb.{b}", prop="C19", engine="kani", target=f"obl_codes::golomb_be::{b}::def", features="checks", tier="thorough",
+                       kind="bounded", bound="constant modulus; " + UNARY_BOUND, fns=CODE_FNS["golomb"]))
+    out += _verus_golomb("C19", [V_MB_W, V_G_W], feats=("checks",))
+    # bulk copies and byte writes under `checks`; generic copy loops under `no_copy_impls`
+    for u, fn in (("copy_to_generic", "copy_to"), ("copy_from_generic", "copy_from")):
+        out.append(Obl(id=f"c19.checks.generic.{fn}", prop="C19", engine="verus", target=f"{u}:{fn}", features="checks",
+                       fns=[f"traits::bits default {fn}"], note="checks configuration: write_bits carries the extra precondition value < 2^n"))
+    for el, E in ENDIANS:
+        for w in ("u8", "u64"):
+            out.append(Obl(id=f"c19.checks.copy_to.{E}.{w}", prop="C19", engine="kani", target=f"obl_c08::rd_{el}::{w}_::c08_copy_to_k2", features="checks",
+                           tier="quick" if w == "u8" else "thorough", kind="bounded", bound="backend window K=2 words", only=r"contract|c08",
+                           fns=[f"BufBitReader<{E},_<{w}>>::copy_to"], confirm=f"obl_c08::rd_{el}::u8_::c08_copy_to_confirm"))
+            out.append(Obl(id=f"c19.no_copy_impls.copy_to.{E}.{w}", prop="C19", engine="kani", target=f"obl_c08::rd_{el}::{w}_::c08_copy_to_k2", features="no_copy_impls",
+                           tier="quick" if w == "u8" else "thorough", kind="bounded", bound="backend window K=2 words",
+                           fns=[f"BitRead::copy_to (default) on BufBitReader<{E},_<{w}>>"]))
+        for w in ("u8", "u64"):
+            out.append(Obl(id=f"c19.checks.copy_from.{E}.{w}", prop="C19", engine="kani", target=f"obl_c08::wr_{el}::{w}_::c08_copy_from", features="checks",
+                           tier="quick" if w == "u8" else "thorough", kind="bounded", bound="writer window of 3-4 words", fns=[f"BufBitWriter<{E},_<{w}>>::copy_from"]))
+            out.append(Obl(id=f"c19.no_copy_impls.copy_from.{E}.{w}", prop="C19", engine="kani", target=f"obl_c08::wr_{el}::{w}_::c08_copy_from", features="no_copy_impls",
+                           tier="quick" if w == "u8" else "thorough", kind="bounded", bound="writer window of 3-4 words",
+                           fns=[f"BitWrite::copy_from (default) on BufBitWriter<{E},_<{w}>>"]))
+        out.append(Obl(id=f"c19.checks.io_write.{E}.u64", prop="C19", engine="kani", target=f"obl_c12::wr_{el}::u64_::c12_write_l9", features="checks",
+                       kind="bounded", bound="slice length = 9 bytes", fns=[f"<BufBitWriter<{E},_<u64>> as std::io::Write>::write"]))
+    return out
+
+
+def _c08_impl() -> List[Obl]:
+    out = []
+    for el, E in ENDIANS:
+        for w in RWORDS:
+            for k in (2, 4):
+                tier = "quick" if (w in QUICK_R and k == 2) else "thorough"
+                out.append(Obl(id=f"c08.copy_to.{E}.{w}.K{k}", prop="C08", engine="kani", target=f"obl_c08::rd_{el}::{w}_::c08_copy_to_k{k}", tier=tier,
+                               kind="bounded", bound=f"backend window K={k} words, writer model of 256 bits; every n, every reader state (incl. more than one word buffered)",
+                               fns=[f"BufBitReader<{E},_<{w}>>::copy_to"], confirm=f"obl_c08::rd_{el}::u8_::c08_copy_to_confirm" if w != "u64" else f"obl_c08::rd_{el}::u8_::c08_copy_to_confirm"))
+            out.append(Obl(id=f"c08.copy_to.then_continue.{E}.{w}", prop="C08", engine="kani", target=f"obl_c08::rd_{el}::{w}_::c08_copy_to_confirm",
+                           tier="quick" if w == "u8" else "thorough", kind="bounded", bound="copy, then an optional peek and a read (continuation operations)",
+                           fns=[f"BufBitReader<{E},_<{w}>>::copy_to + peek_bits + read_bits"]))
+        for w in WWORDS:
+            tier = "quick" if w in QUICK_W else "thorough"
+            out.append(Obl(id=f"c08.copy_from.{E}.{w}", prop="C08", engine="kani", target=f"obl_c08::wr_{el}::{w}_::c08_copy_from", tier=tier,
+                           kind="bounded", bound="writer window of 2-4 words, source model of 256 bits; every n, every writer state", fns=[f"BufBitWriter<{E},_<{w}>>::copy_from"]))
+    return out
+
+
 def all_obligations() -> List[Obl]:
     obls: List[Obl] = []
-    for f in (_c01, _c02, _c03, _c04, _c05, _c06, _c07, _c08, _c09_impl, _c09_codes, _c11, _c13, _c17, _c20):
+    for f in (_c01, _c02, _c03, _c03_params, _c04, _c05, _c05_peek, _c06, _c07, _c08, _c08_impl, _c09_impl, _c09_codes, _c10, _c11, _c12, _c13, _c14, _c15, _c16,
+              _c17, _c18, _c19, _c20):
         obls.extend(f())
     ids = [o.id for o in obls]
     assert len(ids) == len(set(ids)), "duplicate obligation ids"
